@@ -86,7 +86,8 @@ def corpus_sources():
                 mode = fn.split("_", 1)[0]
                 if mode not in ("vcl", "snippet", "auto", "expr"):
                     mode = "auto"
-                out.append((mode, open(os.path.join(d, fn), "rb").read(), "corpus/" + fn, None, False))
+                out.append((mode, open(os.path.join(d, fn), "rb").read(), "corpus/" + fn, None, False,
+                            fn.split("_", 2)[1] == "ok" if fn.count("_") >= 2 else False))
     return out
 
 
@@ -145,16 +146,21 @@ def run(ctx):
     # (mode, source bytes, label, intended sexp or None / "ERR", has_intent)
     cases = corpus_sources()
     for m, s in DIRECTED:
-        cases.append((m, s.encode(), "directed", None, False))
+        cases.append((m, s.encode(), "directed", None, False, False))
     for path, data in vclgen.repo_vcl_files(V.REPO):
-        cases.append(("auto", data, path, None, False))
+        cases.append(("auto", data, path, None, False, False))
     g = vclgen.Gen(rng)
     n_prog = 40000 if thorough else 1500
     for i in range(n_prog):
-        if rng.random() < 0.5:
-            cases.append(("snippet", g.snippet().encode(), "gen-snippet-%d" % i, None, False))
+        k = rng.random()
+        if k < 0.35:
+            cases.append(("snippet", g.snippet().encode(), "gen-snippet-%d" % i, None, False, True))
+        elif k < 0.5:
+            # every statement kind of the grammar at the top of a snippet (switch included)
+            src = "".join(g.stmt(g.max_depth - 1) for _ in range(rng.randint(1, 5)))
+            cases.append(("snippet", src.encode(), "gen-snippet-all-%d" % i, None, False, True))
         else:
-            cases.append(("vcl", g.program().encode(), "gen-vcl-%d" % i, None, False))
+            cases.append(("vcl", g.program().encode(), "gen-vcl-%d" % i, None, False, True))
     eg = parsegen.ExprGen(rng)
     n_expr = 400000 if thorough else 15000
     maxd = 10 if thorough else 6
@@ -163,15 +169,15 @@ def run(ctx):
         d = rng.randint(0, maxd)
         depth_hist[d] = depth_hist.get(d, 0) + 1
         toks, sexp, _ = eg.expression(d)
-        cases.append(("expr", eg.render(toks).encode(), "gen-expr-d%d" % d, sexp, True))
+        cases.append(("expr", eg.render(toks).encode(), "gen-expr-d%d" % d, sexp, True, True))
     n_pairs = 0
     for label, text, sexp in parsegen.pair_cases():
-        cases.append(("expr", text.encode(), label, sexp, True))
+        cases.append(("expr", text.encode(), label, sexp, True, True))
         n_pairs += 1
     for label, text, sexp in parsegen.int_cases() + parsegen.escape_cases():
-        cases.append(("expr", text.encode(), label, sexp if sexp is not None else "ERR", True))
+        cases.append(("expr", text.encode(), label, sexp if sexp is not None else "ERR", True, sexp is not None))
 
-    ireq = ["src %s %s" % (m, s.hex()) for m, s, _, _, _ in cases]
+    ireq = ["src %s %s" % (c[0], c[1].hex()) for c in cases]
     irep = V.run_batch(impl, ireq, hang_s=10)
     mreq, keep = [], []
     outcomes = {"ok": 0, "err": 0}
@@ -179,7 +185,7 @@ def run(ctx):
     streams = []       # (mode, token list) of the inputs that parse, for the malformed stream
     pool = {}
     for c, rep in zip(cases, irep):
-        m, s, label, intent, has_intent = c
+        m, s, label, intent, has_intent, must_parse = c
         if rep is None or rep.startswith(("hang", "died", "crash", "skipped", "bad", "srcmismatch")) or rep.count(" | ") != 2:
             ctx.violation("the parser %s on %s" % ((rep or "gives no reply").split(" ")[0], label),
                           {"mode": m, "source_hex": s.hex()[:4000], "reply": (rep or "")[:400]},
@@ -191,10 +197,11 @@ def run(ctx):
     mrep = V.run_batch([model], mreq, hang_s=120, mem_kb=8_000_000)
     agree = 0
     intent_ok = 0
+    grammar_ok = 0
     nontrivial = set()
     node_kinds = {}
     for (c, toks, orc, out), mr in zip(keep, mrep):
-        m, s, label, intent, has_intent = c
+        m, s, label, intent, has_intent, must_parse = c
         outcomes["ok" if out.startswith("ok") else "err"] += 1
         if out.startswith("err"):
             k = out.split(" ")[1]
@@ -214,6 +221,15 @@ def run(ctx):
                 pool[t] = pool.get(t, 0) + 1
             for k in re.findall(r"\((\w+)", out):
                 node_kinds[k] = node_kinds.get(k, 0) + 1
+        # direct oracle on the implementation: a program derived from the documented grammar parses
+        if must_parse and not has_intent:
+            if out.startswith("ok"):
+                grammar_ok += 1
+            else:
+                ctx.violation("the Go parser rejects a program derived from the documented grammar (%s, %s mode): %s" % (label, m, out),
+                              {"mode": m, "source": s.decode("utf-8", "replace")[:1500], "source_hex": s.hex()[:4000],
+                               "impl": out[:300], "model": (mr or "")[:300]},
+                              {"kind": "grammar-rejected", "mode": m, "error": out})
         # direct oracle on the implementation: the generator's intended tree
         if has_intent:
             if intent == "ERR":
@@ -283,6 +299,7 @@ def run(ctx):
         "distinct_nontrivial": len(nontrivial),
         "sources": len(keep), "sources_agree": agree, "source_outcomes": outcomes,
         "with_intended_tree": sum(1 for c in cases if c[4]), "intended_tree_matches": intent_ok,
+        "grammar_programs": sum(1 for c in cases if c[5] and not c[4]), "grammar_programs_accepted": grammar_ok,
         "operator_pair_cases": n_pairs, "operator_pairs_exhaustive": True,
         "expression_depth_histogram": dict(sorted(depth_hist.items())),
         "malformed_streams": len(bkeep), "malformed_agree": b_agree, "malformed_outcomes": b_out,
